@@ -34,8 +34,15 @@ OBJ_SIMPLE = ["accuracy_score", "balanced_accuracy_score", "selection_rate", "tr
               "true_negative_rate"]
 OBJ_EO = ["accuracy_score", "balanced_accuracy_score"]
 GRIDS = [1, 2, 3, 5, 7, 10, 100, 1000]
-TOL = 1e-8          # |float - exact| on metric values / probabilities (all quantities are O(1))
-WTOL = 1e-9         # mixture weights below this are ignored when comparing operations
+# |float - exact| on metric values / probabilities (all quantities are O(1)).  MEASURED on the clean tree (review R1-B,
+# 1500 generated cases of C04 + C05 incl. near-tie ladders and grid 1000, F18 case excluded): max deviation 6.7e-16 on
+# per-row probabilities (implementation vs exact model, same rule), 2.2e-16 on achieved metrics / objective / parity spread,
+# 1.4e-14 on x_best * N (N = 1000).  1e-12 is ~1500 x the largest observed deviation and the floor used for binary64 paths
+# (was 1e-8).  A fitted p_ignore = (y - y_best) / (y - x) can be off by more when y - x is tiny; `same_rule` then reports
+# "different mixture" and the query rows of that group are compared on the training rows only -- never an alarm.
+TOL = 1e-12
+WTOL = 1e-12        # mixture weights below this are ignored when comparing operations (a weight that is exactly 0 in Rat
+#                     comes out of the float interpolation as 0 or a few 1e-17; was 1e-9)
 
 
 # sha256 of lean/FairModel/Generated/ThresholdTables.lean as lifted from the pinned tree (METRIC_DICT,
@@ -286,10 +293,14 @@ def gen_query(rng, rows):
         q.append([r[0], r[2]])
     for g in gs:
         lv = sorted({F(r[2]) for r in rows if r[0] == g})
-        mids = [(a + b) / 2 for a, b in zip(lv, lv[1:])]
+        # only EXACTLY REPRESENTABLE query scores: the midpoint of two levels from different near-tie ladders can need 54+
+        # bits; the implementation would then see the rounded double while oracle and model saw the exact rational (review
+        # R1-B: this produced a false "C04.pmf-matches-rule" alarm on a score that rounds onto the fitted threshold)
+        mids = [m for m in ((a + b) / 2 for a, b in zip(lv, lv[1:])) if F(float(m)) == m]
         if mids:
             q.append([g, str(rng.choice(mids))])
-        q.append([g, str(rng.choice(lv) + rng.choice([F(-1, 128), F(1, 128), F(1, 256)]))])
+        w = rng.choice(lv) + rng.choice([F(-1, 128), F(1, 128), F(1, 256)])
+        q.append([g, str(w if F(float(w)) == w else F(float(w)))])
         if rng.random() < 0.5:      # just above / below a training score or a candidate threshold, at a random small scale
             v = rng.choice(lv + mids)
             w = v + rng.choice([-3, -1, 1, 2]) * (2 ** rng.randint(0, 40)) * _ulp(v if v != 0 else F(1, 8))
@@ -303,7 +314,7 @@ def gen_query(rng, rows):
     # offset of two 53-bit values can need 54 bits; such a score would reach fairlearn rounded and the exact model not)
     q = [[g, sc] for g, sc in q if F(float(F(sc))) == F(sc)]
     rng.shuffle(q)
-    return q
+    return [[g, str(qscore(s))] for g, s in q]      # every query score is an exactly representable double
 
 
 def exhaustive_cases(ngroups, nlevels, max_rows, cfg_cycle):
@@ -510,6 +521,12 @@ def run_impl(case):
     return out
 
 
+def qscore(s):
+    """a query score as EVERY side sees it: the binary64 value nearest to the rational written in the case (identity for
+    the generator's cases, which are exactly representable; replayed / hand-written cases are rounded once, for all sides)"""
+    return F(float(F(s)))
+
+
 def qname(case, g):
     """sensitive-feature value of a query row; -1 = a value not seen by fit"""
     if g == -1:
@@ -545,7 +562,7 @@ def model_lines(case, i_impl):
         gs, _ = groups_of(case)
         names = proto.strs([str(gname(case, g)) for g in gs])
         qg = proto.strs([str(qname(case, g)) for g, _ in case["query"]])
-        qs = proto.lst([F(s) for _, s in case["query"]])
+        qs = proto.lst([qscore(s) for _, s in case["query"]])
         us = proto.lst(query_draws(case))
         f = forces[-1]
         if case["constraint"] == "equalized_odds":
